@@ -165,8 +165,9 @@ def check_dae(case, ctx):
     data = ref.override_params(obs.unpack(res, "main"), sp, N)
     tr = ref.Traj(R, data, M)
 
-    def at(t):
-        step = max(min(int(np.searchsorted(ti, t, side="right") - 1), N * M - 1), 0)
+    def at(t, step=None):
+        if step is None:
+            step = max(min(int(np.searchsorted(ti, t, side="right") - 1), N * M - 1), 0)
         s_ = (t - ti[step]) / (ti[step + 1] - ti[step])
         Xc = np.column_stack([res["x_i"][:, step], res["x_roots"][:, step * d:(step + 1) * d]])
         Zc = res["z_roots"][:, step * d:(step + 1) * d]
@@ -182,7 +183,8 @@ def check_dae(case, ctx):
     fails = []
     tr_ = res["t_r"].reshape(-1)
     for j in range(len(tr_) - 1):            # the final point closes the last step
-        xv, zv, step = at(tr_[j])
+        # at an arbitrary (infeasible) decision vector neighbouring steps do not join: a refined point belongs to the step it was generated for
+        xv, zv, step = at(tr_[j], step=j // r)
         if not close(res["xz_r"][:nx, j], xv, 1e-8, 1e-9):
             fails.append(Fail("dae-refined-state", feats, {"point": j, "sampled": res["xz_r"][:nx, j], "interpolant": xv}))
             break
@@ -200,7 +202,8 @@ def check_dae(case, ctx):
     except Exception as ex:
         return [Fail("sampler-exception", feats, {"message": str(ex)[:150]})]
     gist = res["gist"].reshape(-1)
-    qt = [tk[0] + f * (tk[-1] - tk[0]) for f in case["fractions"][:-1]] + [float(ti[len(ti) // 2])]
+    qt = [tk[0] + f * (tk[-1] - tk[0]) for f in case["fractions"][:-1]]
+    qt = [t for t in qt if t == tk[0] or np.min(np.abs(ti - t)) > 1e-9 * (1 + abs(t))]      # (strictly inside a step, for the same reason)
     for t in qt:
         out = smp(gist, float(t))
         xv, zv, step = at(t)
